@@ -30,6 +30,11 @@ def isPrefix : List CAcc → List CAcc → Prop
   | x :: p, y :: q => x = y ∧ isPrefix p q
   | _ :: _, [] => False
 
+theorem accAlias_refl' : ∀ a, accAlias a a = true
+  | .port _ => by simp [accAlias]
+  | .idx none => by simp [accAlias]
+  | .idx (some _) => by simp [accAlias]
+
 theorem accAlias_of_denotes (a b : Acc) (c : CAcc) (ha : denotes a c) (hb : denotes b c) : accAlias a b = true := by
   cases a with
   | port x =>
